@@ -726,14 +726,17 @@ Proof. intros T N. apply grid_alg_abs_blind_keyed. Qed.
 (* engines made of block, flex and grid containers and leaves -- every kind of node TaffyView::compute_child_layout dispatches on: two trees
    that coincide up to content_size outside the subtrees of box-generating absolute nodes, THESE NODES HAVING THE SAME grid_row / grid_column on
    both sides, stay so through any pair of evaluations, and every node that is not itself such a node returns the same output up to
-   content_size.  (Only a grid parent reads the lines; the premise on them is what the known finding C06/grid-estimate-absolute costs.) *)
+   content_size.  (Only a grid parent reads the lines; the premise on them is what the known finding C06/grid-estimate-absolute costs.)
+   `disp` is ANY dispatch on (own style, number of children), `leaf` ANY leaf routine; with `taffy_dispatch`, `block_pre`,
+   `abs_child_block` (AbsChildLocal: C06_block_real_absolute_routine_local), `taffy_leaf` this is the engine `vh taffytree` runs against the
+   implementation on whole trees (notes/TAFFYTREE.md) *)
 Theorem C06_taffy_engine_instance :
-  forall (T : Type) (N : Num T) (is_grid : TStyle T -> bool) (kind : BFStyle T -> NodeKind) (pre : BStyle T -> BIn T -> BIn T)
-         (abs_child : @AbsChild T) (leaf : BFStyle T -> FIn T -> LayoutOutput T)
+  forall (T : Type) (N : Num T) (disp : TStyle T -> nat -> TKind) (pre : BStyle T -> BIn T -> BIn T)
+         (abs_child : @AbsChild T) (leaf : TStyle T -> FIn T -> LayoutOutput T)
          (mode : FIn T -> Engine.RunMode) (in_eqb : FIn T -> FIn T -> bool) (is_none : TStyle T -> bool)
          (hidden_out : LayoutOutput T) (zero_lay : FLay T),
     AbsChildLocal abs_child ->
-    let algo := taffy_algo is_grid kind pre abs_child leaf in
+    let algo := taffy_algo disp pre abs_child leaf in
     forall f f' t t' i o t1 o' t1',
       EngineAbsKey.asim (TStyle T) (FIn T) (LayoutOutput T) (FLay T) t_visible_absolute _ t_lines fout_eq flay_eq t t' ->
       memo (TStyle T) (FIn T) (LayoutOutput T) (FLay T) mode in_eqb is_none hidden_out zero_lay algo f t i = Some (o, t1) ->
@@ -741,7 +744,7 @@ Theorem C06_taffy_engine_instance :
       EngineAbsKey.asim (TStyle T) (FIn T) (LayoutOutput T) (FLay T) t_visible_absolute _ t_lines fout_eq flay_eq t1 t1' /\
       (t_visible_absolute (style_of (TStyle T) (FIn T) (LayoutOutput T) (FLay T) t) = false -> fout_eq o o').
 Proof.
-  intros T N is_grid kind pre abs_child leaf mode in_eqb is_none hidden_out zero_lay Hloc algo f f' t t' i o t1 o' t1' Hs E E'.
+  intros T N disp pre abs_child leaf mode in_eqb is_none hidden_out zero_lay Hloc algo f f' t t' i o t1 o' t1' Hs E E'.
   eapply (EngineAbsKey.memo_asimK (TStyle T) (FIn T) (LayoutOutput T) (FLay T) mode in_eqb is_none hidden_out zero_lay algo
             t_visible_absolute _ t_lines fout_eq flay_eq); eauto.
   - apply fout_eq_refl.
